@@ -421,7 +421,10 @@ def gen_bad_response(rng):
         # (latin-1 character, multi-byte sequence cut short by the length, random high bytes), an empty body
         body = rng.choice([b'{"a": 1', b"[1, 2,,]", b"nope", b"", b'{"caf\xe9": 1}', b'{"k": "\xe2\x82"}', b'"\xf0\x9f\x98"',
                            bytes(rng.randrange(128, 256) for _ in range(rng.randint(1, 12))), b'{"ok": true}', b"\xff\xfe{}"])
-        ctype = rng.choice([b"application/json", b"application/json; charset=utf-8", b"application/json"])
+        ctype = rng.choice([b"application/json", b"application/json; charset=utf-8", b"application/json",
+                            # parameters without a value, with a blank instead of `=`, several of them
+                            b"application/json; charset", b"application/json; charset utf-8", b"application/json; charset=utf-8; q",
+                            b"application/json;", b"application/json; =", b"application/json; charset=;"])
         if rng.random() < 0.3:
             raw = (b"HTTP/1.1 200 OK\r\nContent-Type: " + ctype + b"\r\nTransfer-Encoding: chunked\r\n\r\n" +
                    (b"%x\r\n" % len(body) + body + b"\r\n" if body else b"") + b"0\r\n\r\n")
